@@ -864,7 +864,8 @@ def convert_arg(e):
 def reporting(ar_tree, fd_tree):
     """-> (champion parameters are the conversion of the champion decisions,
            best parameters are the conversion of the best decisions,
-           the final pipeline runs get the reported parameters)"""
+           the final pipeline runs get the reported parameters,
+           the island's row handed to update_processor stays 1-D whatever its length)"""
     # ---- _get_champions
     fn = find_func(ar_tree, "_get_champions", ARCLS)
     ds, names, stored = None, {}, {}
@@ -980,7 +981,7 @@ def reporting(ar_tree, fd_tree):
     kws = {k.arg: k.value for k in inner[0].keywords}
     if "parameter" not in kws or not is_name(kws["parameter"]):
         fail(inner[0], "apply_parameters_to_processors: parameter= is not a name")
-    pname, ok_param, grp = kws["parameter"].id, False, None
+    pname, ok_param, grp, keeps_1d = kws["parameter"].id, False, None, False
     for s in ast.walk(ap_all):
         if isinstance(s, ast.For) and isinstance(s.iter, ast.Call) and isinstance(s.iter.func, ast.Attribute) \
                 and s.iter.func.attr == "groupby" and is_name(s.iter.func.value, "parameters") \
@@ -990,14 +991,29 @@ def reporting(ar_tree, fd_tree):
     for s in ast.walk(ap_all):
         ap = assign_parts(s) if isinstance(s, (ast.Assign, ast.AnnAssign)) else None
         if ap and is_name(ap[0], pname):
-            # <group>.squeeze().to_numpy() | <group>.to_numpy().squeeze() | np.asarray(<group>).squeeze() ...
-            names_in = {n.id for n in ast.walk(ap[1]) if isinstance(n, ast.Name)}
-            calls_in = {c.func.attr for c in ast.walk(ap[1]) if isinstance(c, ast.Call) and isinstance(c.func, ast.Attribute)}
+            # the island's row of `parameters` as a numpy array: <group>.squeeze().to_numpy() and variants
+            e = ap[1]
+            names_in = {n.id for n in ast.walk(e) if isinstance(n, ast.Name)}
+            calls = [c for c in ast.walk(e) if isinstance(c, ast.Call) and isinstance(c.func, ast.Attribute)]
+            attrs = {c.func.attr for c in calls}
             ok_param = grp is not None and names_in <= {grp, "np"} and grp in names_in \
-                and calls_in <= {"squeeze", "to_numpy", "asarray", "array", "ravel"}
+                and attrs <= {"squeeze", "to_numpy", "asarray", "array", "ravel", "atleast_1d", "isel", "reshape"}
+            # a bare .squeeze() also drops a parameter axis of length one (-> 0-d array); the row stays 1-D when the
+            # squeeze names the island dimension, or the result is made 1-D again
+            bare = any(c.func.attr == "squeeze" and not c.args and not c.keywords for c in calls)
+            for c in calls:
+                if c.func.attr == "squeeze" and (c.args or c.keywords):
+                    dims = [u(a) for a in c.args] + [u(k.value) for k in c.keywords]
+                    if dims != ["'island'"]:
+                        ok_param = False
+                if c.func.attr == "isel" and (c.args or [k.arg for k in c.keywords] != ["island"]):
+                    ok_param = False
+                if c.func.attr == "reshape" and [u(a) for a in c.args] != ["-1"]:
+                    ok_param = False
+            keeps_1d = (not bare) or bool(attrs & {"atleast_1d", "ravel", "reshape"})
     if not ok_param:
         fail(ap_all, "apply_parameters_to_processors: the island's row of `parameters` is not what is applied")
-    return champion, best, final
+    return champion, best, final, keeps_1d
 
 
 # ------------------------------------------------------------------------------------------ emission
@@ -1021,7 +1037,7 @@ def emit(rows, getter, sb, cv, up, init_copy, fit_conv, rep) -> str:
             f"    (mkCv {cb(cvc)} {cva0} {cvb[SCALAR]} {cvb[SHARED]})\n"
             f"    (mkUp {cb(upc)} {upa0} {upb[SCALAR]} {upb[SHARED]})\n"
             f"    {cb(init_copy)} {cb(fit_conv)}.\n"
-            f"Definition src_report : rp_desc := mkRp {cb(rep[0])} {cb(rep[1])} {cb(rep[2])}.\n")
+            f"Definition src_report : rp_desc := mkRp {cb(rep[0])} {cb(rep[1])} {cb(rep[2])} {cb(rep[3])}.\n")
 
 
 def translate(repo: Path) -> str:
@@ -1039,4 +1055,4 @@ def translate(repo: Path) -> str:
 # the description of the unchanged tree; used only to keep a model available for the failing-input search
 # when the translation itself fails (the failed translation is already a broken obligation)
 FALLBACK = (HEADER + PRELUDE + "Definition src_desc : wdesc := desc_as_coded.\n"
-            "Definition src_report : rp_desc := mkRp true true true.\n")
+            "Definition src_report : rp_desc := mkRp true true true true.\n")
